@@ -69,13 +69,25 @@ FLOWS = {
     'close_balance': dict(fn=r'close_balance::lending_account_close_balance$', kinds=[], ops=['close_balance'], health=None, disabled=False, acct=None),
 }
 
+# pass-through (integration) banks: same gates, no interest accrual of their own (C06 does not apply)
+INTEGRATION_FLOWS = {
+    'kamino_deposit': dict(fn=r'kamino::deposit::kamino_deposit$', kinds=['FailsIfPausedOrReduceState'], ops=['deposit_no_repay'], health=None, disabled=True, acct='marginfi_account'),
+    'solend_deposit': dict(fn=r'solend::deposit::solend_deposit$', kinds=['FailsIfPausedOrReduceState'], ops=['deposit_no_repay'], health=None, disabled=True, acct='marginfi_account'),
+    'drift_deposit': dict(fn=r'drift::deposit::drift_deposit$', kinds=['FailsIfPausedOrReduceState'], ops=['deposit_no_repay'], health=None, disabled=True, acct='marginfi_account'),
+    'kamino_withdraw': dict(fn=r'kamino::withdraw::kamino_withdraw$', kinds=['FailsInPausedState'], ops=['withdraw', 'withdraw_all'], health='unless-receivership', disabled=True, acct='marginfi_account'),
+    'solend_withdraw': dict(fn=r'solend::withdraw::solend_withdraw$', kinds=['FailsInPausedState'], ops=['withdraw', 'withdraw_all'], health='unless-receivership', disabled=True, acct='marginfi_account'),
+}
+INTEGRATION_OPAQUE = [r'cpi::', r'Cpi', r'accessor::amount$', r'get_withdraw_token_amount$', r'get_scaled_balance_(de|in)crement$', r'MinimalSpotMarket', r'MinimalUser', r'MinimalReserve', r'MinimalObligation',
+                      r'liquidity_to_collateral$', r'collateral_to_liquidity', r'assert_within_one_token$', r'cpi_\w+$']
+FLOWS.update(INTEGRATION_FLOWS)
+
 SHARE_READERS = r'socialize_loss$|get_liability_amount$|get_asset_amount$|get_remaining_deposit_capacity$'
 
 
 def run_flow(world, name):
     F = FLOWS[name]
     kernels = [k for k in KERNELS if k != r'BankAccountWrapper']
-    eng, f, args, res = run_handler(world, F['fn'], kernels=kernels, summaries=SUMMARIES)
+    eng, f, args, res = run_handler(world, F['fn'], kernels=kernels, summaries=SUMMARIES, extra_opaque=(INTEGRATION_OPAQUE if name in INTEGRATION_FLOWS else ()))
     return eng, f, args, res
 
 
@@ -114,7 +126,7 @@ def flow_obligations(world, name, props):
             before = [(i, e) for i, e in vs if i < first_op]
             if o.witness(eng, r, [okc]) is not False:
                 if len(before) < len(F['kinds']):
-                    o.fail(f'only {len(before)} validate_bank_state calls before the first balance mutation (need {len(F["kinds"])})')
+                    o.structural(f'only {len(before)} validate_bank_state calls before the first balance mutation (need {len(F["kinds"])})', 'ungated', {'trace': [x[1] if x[0] != 'call' else short(x[1]) for x in E][:60]})
                 for (i, e), want in zip(before, F['kinds']):
                     kd = e[2][1]
                     o.prove(eng, r, [okc], zint(kd.disc) == KIND[want] if isinstance(kd, EnumV) else z3.BoolVal(False), f'instruction kind constant == {want}')
@@ -122,7 +134,7 @@ def flow_obligations(world, name, props):
                 # each gated bank is the bank that is mutated
                 gated = {cellname(e[2][0]) for i, e in before}
                 for i in all_ops:
-                    if E[i][2] not in gated: o.fail(f'balance op {E[i][1]} on bank object {E[i][2]} which was not gated by validate_bank_state ({gated})')
+                    if E[i][2] not in gated: o.structural(f'balance op {E[i][1]} on bank object {E[i][2]} which was not gated by validate_bank_state ({sorted(gated)})', 'ungated-bank', {'trace': [x[1] if x[0] != 'call' else short(x[1]) for x in E][:60]})
         # ---------------- C06.e: accrue first
         if 'C06' in props:
             o = ob('C06', 'e', f'{name}: every read/write of a bank\'s shares is preceded by accrue_interest on the same bank with the clock read in this instruction')
@@ -207,7 +219,7 @@ def flow_obligations(world, name, props):
                     if rr is None: rr = eng.get_path(res_tuple, (('f', 0, 'std::result::Result<(), anchor_lang::error::Error>'),))
                     forced_ok(o, eng, r, okc, rr.disc, 'risk-engine rejection is propagated (risk_result?)')
                     sorts = [j for j, x in enumerate(E) if x[0] == 'call' and re.search(r'sort_balances$', x[1])]
-                    if not [j for j in sorts if max(all_ops) < j < i]: o.fail('no sort_balances between the mutation and the health check')
+                    if not [j for j in sorts if max(all_ops) < j < i]: o.structural('no sort_balances between the mutation and the health check', 'unsorted-health')
                     else: o.unsat += 1; o.queries += 1
     for o in obs.values():
         o.notes.append(f'{n_ok} accepting paths')
